@@ -1,5 +1,6 @@
 from __future__ import annotations
 
+import codecs
 import logging
 import os
 import pathlib
@@ -129,7 +130,8 @@ class SourceFile:
     def __init__(self, filename: pathlib.Path):
         self.replacements: list[Replacement] = []
         self.filename = filename
-        self.source = self.filename.read_text("utf-8")
+        # "utf-8-sig": a byte order mark is not part of the code
+        self.source = self.filename.read_text("utf-8-sig")
 
     def rewrite(self):
         new_code = self.new_code()
@@ -145,6 +147,9 @@ class SourceFile:
         if b"\r\n" in original and b"\n" not in original.replace(b"\r\n", b""):
             # the file uses windows line endings, which are translated to "\n" when it is read
             data = data.replace(b"\r\n", b"\n").replace(b"\n", b"\r\n")
+        if original.startswith(codecs.BOM_UTF8):
+            # the byte order mark is removed when the file is read
+            data = codecs.BOM_UTF8 + data
 
         try:
             with open(tmp_file, "bw") as code:
@@ -177,7 +182,7 @@ class SourceFile:
 
         self._check()
 
-        code = self.filename.read_text("utf-8")
+        code = self.filename.read_text("utf-8-sig")
 
         format_whole_file = enforce_formatting() or code == format_code(
             code, self.filename
